@@ -176,6 +176,9 @@ pub struct SrvCfg {
     /// the application may replace the installed kill switch once (a second add_kill_switch);
     /// the replaced switch is never signalled afterwards
     pub kill_reinstall: bool,
+    /// every chunk of every script is one rejected request; a client sends its next chunk only
+    /// after it has read the reply to the previous one, so the k-th 400 answers the k-th chunk
+    pub chunk_replies: bool,
     /// a duplicate response for the last answered request of a released connection is an explored action
     pub late_duplicates: bool,
 }
@@ -209,6 +212,7 @@ impl SrvCfg {
             flush_action: false,
             kill_install_action: false,
             kill_reinstall: false,
+            chunk_replies: false,
             late_duplicates: false,
         }
     }
@@ -224,7 +228,7 @@ impl SrvCfg {
             "max_depth": self.max_depth, "closure_all": self.closure_all, "closure_witness": self.closure_witness,
             "release_check": self.release_check, "flush_probe": self.flush_probe, "twin_without_kill": self.twin_without_kill,
             "respond_any": self.respond_any, "max_outstanding_for_respond": self.max_outstanding_for_respond,
-            "never_yield": self.never_yield, "must_yield_after": self.must_yield_after, "closure_c11": self.closure_c11, "yield_promptly": self.yield_promptly, "kill_switch_late": self.kill_switch_late, "flush_action": self.flush_action, "kill_install_action": self.kill_install_action, "kill_reinstall": self.kill_reinstall, "late_duplicates": self.late_duplicates,
+            "never_yield": self.never_yield, "must_yield_after": self.must_yield_after, "closure_c11": self.closure_c11, "yield_promptly": self.yield_promptly, "kill_switch_late": self.kill_switch_late, "flush_action": self.flush_action, "kill_install_action": self.kill_install_action, "kill_reinstall": self.kill_reinstall, "chunk_replies": self.chunk_replies, "late_duplicates": self.late_duplicates,
         })
     }
     pub fn from_json(v: &Value) -> SrvCfg {
@@ -279,6 +283,7 @@ impl SrvCfg {
             kill_switch_late: b("kill_switch_late"),
             kill_install_action: b("kill_install_action"),
             kill_reinstall: b("kill_reinstall"),
+            chunk_replies: b("chunk_replies"),
             late_duplicates: b("late_duplicates"),
             flush_action: b("flush_action"),
         }
@@ -1366,7 +1371,17 @@ impl<'a> World<'a> {
                 400 => {
                     n400 += 1;
                     self.facts |= 1 << 15;
-                    if self.cfg.property == "C04" {
+                    if self.cfg.chunk_replies {
+                        // the k-th 400 answers the k-th chunk (the client waits for each reply)
+                        if let Some(chunk) = self.cfg.clients[c].script.get(n400 - 1) {
+                            if let Some((_, ss::Event::Error(ss::ErrClass::Payload(l, n)))) = ss::parse_all(chunk, limit, 1024).first() {
+                                let body = String::from_utf8_lossy(&r.body).to_string();
+                                if !(body.contains(&l.to_string()) && body.contains(&n.to_string())) {
+                                    return self.fail("size-limit-400-body", format!("400 #{} received by client {} answers a declared length {} over the limit {} but does not report both numbers: {:?}", n400, c, n, l, body));
+                                }
+                            }
+                        }
+                    } else if self.cfg.property == "C04" {
                         // the 400 for a size-limit violation reports both numbers
                         if let Some((l, n)) = evs.iter().find_map(|(_, e)| if let ss::Event::Error(ss::ErrClass::Payload(l, n)) = e { Some((*l, *n)) } else { None }) {
                             let body = String::from_utf8_lossy(&r.body).to_string();
@@ -1502,7 +1517,7 @@ impl<'a> World<'a> {
             if c.closed {
                 continue;
             }
-            if c.sent_chunks < cc.script.len() && !c.shut_wr && !c.reset {
+            if c.sent_chunks < cc.script.len() && !c.shut_wr && !c.reset && (!self.cfg.chunk_replies || read_all(&c.rx).0.iter().filter(|r| r.code >= 200).count() >= c.sent_chunks) {
                 v.push(SAct::Send(i as u8));
             }
             if cc.reads && !c.shut_rd && !c.eof && !c.reset && fionread(c.fd) > 0 {
@@ -1682,6 +1697,30 @@ impl<'a> World<'a> {
             Some(_) => {}
         }
         if self.violation.is_some() {
+            return;
+        }
+        if self.cfg.chunk_replies {
+            // every chunk sent so far is a rejected request of its own: each must have been answered
+            for i in 0..self.clients.len() {
+                {
+                    let c = &self.clients[i];
+                    if !c.connected || c.closed || c.shut_rd || c.eof || c.reset {
+                        continue;
+                    }
+                }
+                self.recv(i, 0);
+                if self.violation.is_some() {
+                    return;
+                }
+                let c = &self.clients[i];
+                let limit = if c.accepted { c.limit_at_accept } else { self.limit };
+                let all_rejected = self.cfg.clients[i].script[..c.sent_chunks].iter().all(|ch| matches!(ss::parse_all(ch, limit, 1024).first(), Some((_, ss::Event::Error(_)))));
+                let n400 = read_all(&c.rx).0.iter().filter(|r| r.code == 400).count();
+                if all_rejected && n400 != c.sent_chunks {
+                    let d = format!("client {} sent {} rejected requests one by one (waiting for each reply) but holds {} 400 responses after fair completion; sent {:?}", i, c.sent_chunks, n400, show(&c.sent));
+                    return self.fail("stall:no-400", d);
+                }
+            }
             return;
         }
         for i in 0..self.clients.len() {
